@@ -226,7 +226,33 @@ def innermost_mwlib_frame(tb):
     return best or ("?", "?")
 
 
+class HarnessFault(Exception):
+    """An exception raised by verification code that is wrapped into the code under test."""
+
+
+def harness_fault(exc):
+    """If the innermost frame of the traceback is verification code (a wrapper of ours running inside
+    the code under test), a description of it; else None.  Such an exception says nothing about
+    mwlib: it is a machinery failure, never a violation."""
+    tb = exc.__traceback__
+    last = None
+    while tb is not None:
+        last = tb
+        tb = tb.tb_next
+    if last is None:
+        return None
+    fn = os.path.abspath(last.tb_frame.f_code.co_filename)
+    here = os.path.dirname(os.path.dirname(os.path.abspath(__file__)))
+    if fn.startswith(here + os.sep):
+        return "%s: %s raised in the harness at %s:%d (%s) — a seam the harness relies on has changed" % (
+            type(exc).__name__, exc, os.path.relpath(fn, here), last.tb_lineno, last.tb_frame.f_code.co_name)
+    return None
+
+
 def crash_key(entry, exc):
+    hf = harness_fault(exc)
+    if hf:
+        raise HarnessFault(hf)
     f, fun = innermost_mwlib_frame(exc.__traceback__)
     return "%s %s %s:%s" % (entry, type(exc).__name__, f, fun)
 
@@ -266,8 +292,14 @@ class Recorder:
         rec = cls()
 
         def pass_name(p):
+            # must not throw: this runs inside parse_string (CombinedParser.__init__)
             if isinstance(p, TagParser):
-                return "TagParser:" + ",".join(sorted(p.name2tag))
+                names = None
+                for v in list(vars(p).values()):
+                    if isinstance(v, dict) and v and all(hasattr(t, "tagname") for t in v.values()):
+                        names = sorted(str(t.tagname) for t in v.values())
+                        break
+                return "TagParser:" + (",".join(names) if names else "?")
             return getattr(p, "__name__", type(p).__name__)
 
         class PassWrap:
@@ -364,6 +396,8 @@ def pmap(ctx, fn, jobs):
         for f in as_completed(futs):
             try:
                 yield f.result()
+            except HarnessFault as e:
+                ctx.machinery(str(e))
             except BrokenProcessPool:
                 ctx.machinery("a worker process died while executing %s (killed or crashed)" % fn.__name__)
     finally:
